@@ -147,7 +147,10 @@ def gen(rng, tier, quarantine=()):
     ops.append({"op": "exit", "id": "p0"})
     if any(o.get("id") == "mid" for o in ops):
         ops.append({"op": "exit", "id": "mid"})
-    sc = {"prog": "forms", "ops": ops, "exact_failures": True}
+    # KF-C06-3: a return value superseded in a finally clause (or by a failing context-manager exit)
+    # is still reported; with the finding quarantined that one event is optional, everything else judged
+    sc = {"prog": "forms", "ops": ops, "exact_failures": True,
+          "superseded_returns": "kept" if "superseded-return-reported" in quarantine else "void"}
     if generated:
         sc.update({"prog": "generated", "program": generated, "prog_name": f"gen{rng.randrange(1 << 40):x}"})
     return sc
